@@ -19,7 +19,7 @@ LEVEL = "exploration"
 RULE = ("exhaustive: 25 EEMS 2.0 names x {with, without NewFieldName} x {with, without OutFileName} x {bare, 'Result =' form}; random: "
         "EEMS models of 2-12 commands written in 2.0 syntax (any graph shape, optionally mixed with MPilot-style commands) in all "
         "W-SYNTAX layouts; distinct by (set of 2.0 names used, naming styles, mixed?, layout style)")
-REQUIRED_COUNTERS = ["names_checked", "translations_compared", "result_sets_compared"]
+REQUIRED_COUNTERS = ["names_checked", "translations_compared", "result_sets_compared", "restricted_library_histories"]
 EXHAUSTIVE_NOTE = "all 25 mapped names x 8 naming/argument forms in both tiers"
 ASSUMPTIONS = ["the harness's name table restates the mapping by meaning (MEANTOMID is the fuzzy mean-to-mid conversion, ORNEG the minimum)",
                "2.0 commands with neither a result name nor NewFieldName/InFieldName, and OutFileName on MPilot-style commands inside a 2.0 file, are don't-care"]
@@ -75,6 +75,11 @@ def _v2_form(c, rng, mixed, force=None):
             args["NewFieldName"] = res
     if rng.random() < 0.4:
         args["OutFileName"] = "ignored_out.csv"
+    if rng.random() < 0.5:
+        # EEMS 2.0 files do not promise any argument order (NewFieldName may come first)
+        keys = list(args)
+        rng.shuffle(keys)
+        out["args"] = {k: args[k] for k in keys}
     return out, res
 
 
@@ -92,7 +97,8 @@ def render_pair(model, rng, mixed, style):
             out, res = f
             rename[c["result"]] = res
             v2cmds.append({"result": out["result"], "cmd": out["cmd"], "args": out["args"], "kinds": dict(kinds.get(c["cmd"], {}), NewFieldName="string", OutFileName="string")})
-            v3cmds.append({"result": res, "cmd": c["cmd"], "args": {k: v for k, v in c["args"].items()}})
+            # the translation keeps the arguments in the order the 2.0 text gives them, minus the two dropped ones
+            v3cmds.append({"result": res, "cmd": c["cmd"], "args": {k: c["args"][k] for k in out["args"] if k in c["args"]}})
 
     def ren(v):
         if isinstance(v, str):
@@ -154,8 +160,17 @@ def run_case(ctx, case):
         ctx.dontcare("no 2.0 command in this rendering")
         return
     ctx.count("translations_compared")
+    if case["rseed"] % 3 == 0:
+        # history: some other 2.0 file was loaded earlier in this process for a program without the fuzzy library
+        from mpilot.program import Program
+        try:
+            Program.from_source('READ(InFileName = "in.csv", InFieldName = X0)\nCVTTOFUZZY(InFieldName = X0, NewFieldName = Fz0)\nOR(InFieldNames = [Fz0], NewFieldName = Or0)',
+                                libraries=("mpilot.libraries.eems.basic", "mpilot.libraries.eems.csv"), working_dir=d)
+        except Exception:
+            pass
+        ctx.count("restricted_library_histories")
     o2, s2, r2 = _load_run(t2, d)
-    o3, s3, r3 = _load_run(t3, ctx.scratch_like(d) if hasattr(ctx, "scratch_like") else d)
+    o3, s3, r3 = _load_run(t3, d)
     detail = {"v2_text": t2[:1500], "translated_text": t3[:1500]}
     if o2[0] != o3[0] or (o2[0] == "load-error" and o2[1] != o3[1]):
         bad = [c["cmd"] for c in v2cmds if c["cmd"] in V2]
